@@ -41,6 +41,10 @@ func (g *generatorContext) addUnionDefs(defs []unionDef) error {
 			if err != nil {
 				return err
 			}
+			if _, isUnion := memberNode.(*union); isUnion {
+				// A slice of, or pointer to, a union type is not a production: the union would contain itself.
+				return fmt.Errorf("union member %s of %s is itself a union type", memberType, def.typ)
+			}
 			unionNode.disjunction.nodes = append(unionNode.disjunction.nodes, memberNode)
 		}
 	}
